@@ -99,8 +99,10 @@ pub enum Norm {
     Zero,
     Nan,
     Negative,
+    /// a finite positive constant unrelated to the table (the only normalization that stays finite when the table contains NaN / infinite entries)
+    One,
 }
-pub const NORMS: [Norm; 7] = [Norm::None, Norm::Exact, Norm::Half, Norm::Double, Norm::Zero, Norm::Nan, Norm::Negative];
+pub const NORMS: [Norm; 8] = [Norm::None, Norm::Exact, Norm::Half, Norm::Double, Norm::Zero, Norm::Nan, Norm::Negative, Norm::One];
 
 pub fn float_alphabet_f64() -> Vec<f64> {
     vec![0.0, 5e-324, 1e-308, 1e-100, 1e-20, 1e-16, 1e-3, 0.1, 1.0 / 3.0, 0.5, 1.0, 3.0, 7.7, 1e3, 9007199254740992.0, 1e30, 1e300, 4e307,
@@ -123,7 +125,7 @@ macro_rules! float_case_impl {
             let entries_ok = t.iter().all(|x| *x >= 0.0 && x.is_finite());
             let norm_val: Option<$F> = match norm {
                 Norm::None => None, Norm::Exact => Some(sum), Norm::Half => Some(sum * 0.5), Norm::Double => Some(sum * 2.0),
-                Norm::Zero => Some(0.0), Norm::Nan => Some(<$F>::NAN), Norm::Negative => Some(-1.0),
+                Norm::Zero => Some(0.0), Norm::Nan => Some(<$F>::NAN), Norm::Negative => Some(-1.0), Norm::One => Some(1.0),
             };
             // documented preconditions of the `_fast` constructors
             let valid_fast = n >= 2 && entries_ok && sum.is_normal() && sum > 0.0 && matches!(norm, Norm::None | Norm::Exact);
